@@ -167,7 +167,9 @@ type Interp struct {
 	stats     *workerStats
 	pcFacts   map[*Term]bool
 	noMerge   bool
+	enum2     bool
 	allowInit *ssa.Function
+	uniqueTab map[string]*value
 	mergeFail map[*ssa.If]int
 	specFresh map[*value]bool
 	dom       map[*Term]*[4]uint64
@@ -890,6 +892,11 @@ func (in *Interp) callSSA(caller *frame, fn *ssa.Function, args []value, env []v
 	fi := in.P.info(fn)
 	in.fnCount[fn]++
 	fr := &frame{in: in, caller: caller, fn: fn, fi: fi}
+	if fi.ext == nil {
+		if o := fn.Origin(); o != nil && o.Pkg != nil && o.Pkg.Pkg.Path() == "unique" && o.Name() == "Make" {
+			fi.ext = extUniqueMake
+		}
+	}
 	if fi.ext != nil {
 		save := in.curFrame
 		in.curFrame = fr
@@ -1409,4 +1416,23 @@ func (in *Interp) symStrSlice(instr *ssa.Slice, x str, lo, hi value) (value, boo
 		}, n, l64, 8)
 	}
 	return strFromBytes(bs), true
+}
+
+// unique.Make[T]: canonical handle = struct{value *T}
+func extUniqueMake(in *Interp, fr *frame, args []value) value {
+	k, ok := mapKey(args[0])
+	if !ok {
+		panic(in.unsupported("unique.Make of symbolic value"))
+	}
+	key := fmt.Sprintf("%T:%v", k, k)
+	if in.uniqueTab == nil {
+		in.uniqueTab = map[string]*value{}
+	}
+	p, ok := in.uniqueTab[key]
+	if !ok {
+		cell := copyVal(args[0])
+		p = &cell
+		in.uniqueTab[key] = p
+	}
+	return structV{p}
 }
